@@ -1,7 +1,7 @@
 #!/usr/bin/env bash
 # seed_import.sh <Cxx> <name>  — copy a sub-agent's deliverable from /tmp/mut/<Cxx>/out into /verif/seeded/<name>/
 set -e
-P="$1"; NAME="$2"; SRC="/tmp/mut/$P/out"; DST="/verif/seeded/$NAME"
+P="$1"; NAME="$2"; SRC="${3:-/tmp/mut2}/$P/out"; DST="/verif/seeded/$NAME"
 mkdir -p "$DST/demo"
 cp "$SRC/patch.diff" "$DST/patch.diff"
 cp -r "$SRC/demo/." "$DST/demo/" 2>/dev/null || true
